@@ -444,6 +444,47 @@ def odd_object_cases(ctx, only=None):
             run("ctor: class with invariants defining %s, sub-class adding %s, constructed with 0..2 arguments" % (root, sub),
                 case_ctor(root, sub))
 
+    def case_propsub(route):
+        """A sub-class of `property` with behaviour of its own (a __get__ that counts, an extra method, an explicit doc)."""
+        def build(contracted):
+            import inspect
+
+            class counting(property):
+                reads = 0
+
+                def __get__(self, obj, objtype=None):
+                    if obj is not None:
+                        type(self).reads += 1
+                    return super().__get__(obj, objtype)
+
+                def describe(self):
+                    return "counting property"
+
+            def getter(self):
+                "getter doc"
+                return 2
+
+            def setter(self, value):
+                self.__dict__["stored"] = value
+
+            if route == "invariant":
+                K = type("K", (), {"v": counting(getter, setter), "__init__": lambda self: None})
+                if contracted:
+                    K = icontract.invariant(lambda self: True)(K)
+            else:
+                root = icontract.DBC if contracted else object
+                base_getter = (icontract.ensure(lambda result: True)(lambda self: 1)) if contracted else (lambda self: 1)
+                Base = type(root)("Base", (root,), {"v": property(base_getter)})
+                K = type(Base)("K", (Base,), {"v": counting(getter, setter)})
+            static = inspect.getattr_static(K, "v")
+            o = K()
+            o.v = 7
+            return (type(static).__name__, hasattr(static, "describe"), o.v, o.v, counting.reads, o.__dict__.get("stored"), static.__doc__)
+        return build
+
+    for route in ("invariant", "dbc"):
+        run("propsub: a sub-class of property with behaviour of its own (%s)" % route, case_propsub(route))
+
     def case_doc(contracted):
         def getter(self):
             "getter doc"
